@@ -43,6 +43,32 @@ def rule_single(ctx, rep):
                     r.finding(inst, loc_str(b.f, c.loc), "file contents are read/decoded outside source::path_to_source: this path bypasses the decoder cascade")
 
 
+def decoding_unit(ctx):
+    """path_to_source, its closures, and the helpers of source.rs they call (with their closures): the code between reading the file and
+    returning its text, however it is split into functions.  `diagnostic` only builds the error value."""
+    pb = ctx.prog.get("ironplcc::source::path_to_source")
+    if not pb:
+        return []
+    unit = [pb[0]]
+    seen = {pb[0].id}
+    i = 0
+    while i < len(unit):
+        b = unit[i]
+        i += 1
+        for cb in ctx.prog.bodies.values():
+            if cb.f.get("parent") == b.id and cb.id not in seen:
+                seen.add(cb.id)
+                unit.append(cb)
+        for c in b.calls():
+            nm = norm(c.callee or "")
+            if nm.startswith("ironplcc::source::") and nm != "ironplcc::source::diagnostic" and "::test" not in nm:
+                for h in ctx.prog.get(nm):
+                    if h.id not in seen and h.f.get("file") == pb[0].f.get("file") and h.f.get("dk") != "Closure":
+                        seen.add(h.id)
+                        unit.append(h)
+    return unit
+
+
 def rule_api(ctx, rep):
     r = rep.rule("R-C14-api", "path_to_source decodes with encoding_rs::Encoding::decode (BOM sniffing: UTF-8/UTF-16LE/BE BOM honoured and removed) over the "
                               "cascade [UTF_8, WINDOWS_1252] in that order and accepts a decoder's output only when had_errors is false", floor=3)
@@ -68,8 +94,7 @@ def rule_api(ctx, rep):
         r.ok("cascade|UTF_8 then WINDOWS_1252", where)
     else:
         r.finding("cascade|%s" % ",".join(str(x).split("::")[-1] for x in decoders), where, "decoder cascade is %s, expected [UTF_8, WINDOWS_1252]" % decoders)
-    closures = [cb for cb in ctx.prog.bodies.values() if cb.f.get("parent") == b.id]
-    dec = [(cb, c) for cb in closures + [b] for c in cb.calls() if (c.callee or "").startswith("encoding_rs::")]
+    dec = [(cb, c) for cb in decoding_unit(ctx) for c in cb.calls() if (c.callee or "").startswith("encoding_rs::")]
     api = [c.callee for _, c in dec if c.callee not in ("encoding_rs::Encoding::name",)]
     if api == ["encoding_rs::Encoding::decode"]:
         r.ok("decode-api|Encoding::decode (BOM sniffing)", where)
@@ -231,11 +256,42 @@ def rule_rawbytes(ctx, rep, rid="R-C14-rawbytes"):
     the operand of decode() is that buffer through Deref alone (no slicing, trimming or copying call in between)."""
     r = rep.rule(rid, "path_to_source hands the bytes it read to the decoders unmodified: no mutable use of the byte buffer, and decode()'s input is the "
                       "whole buffer (reached through Deref only)", floor=2, floor_what="byte buffer uses + decode operands")
-    bodies = [b for b in ctx.prog.bodies.values() if b.id.startswith("ironplcc::source::path_to_source")]
+    bodies = decoding_unit(ctx)
     if not bodies:
         rep.error(rid, "path_to_source not found")
         return
     n = 0
+
+    def param_is_whole_buffer(h, param, depth=2):
+        """the byte-slice parameter of a helper is the whole buffer at every call of the helper inside the unit"""
+        sites_ = [(b2, c2) for b2 in bodies for c2 in b2.calls() if norm(c2.callee or "") == norm(h.id) and len(c2.args) >= param]
+        if not sites_ or depth == 0:
+            return False
+        for b2, c2 in sites_:
+            vecs2 = {l for l, (ty, name) in enumerate(b2.f["locals"]) if re.sub(r"\s", "", ty) in ("alloc::vec::Vec<u8>", "alloc::vec::Vec<u8,alloc::alloc::Global>")}
+
+            def is_buf2(place):
+                rt = b2.root(place)
+                if rt[0] in vecs2 and all(x == "*" for x in rt[1]):
+                    return True
+                fs = [x for x in rt[1] if isinstance(x, list) and x[0] == "f"]
+                tail = rt[1][rt[1].index(fs[-1]) + 1:] if fs else []
+                return bool(fs) and re.sub(r"\s", "", fs[-1][5] or "").replace("&", "") in ("alloc::vec::Vec<u8>",) and all(x == "*" for x in tail)
+            p2 = op_place(c2.args[param - 1])
+            d2 = b2.single_def(p2[0]) if p2 is not None and not p2[1] else None
+            for _ in range(3):
+                if d2 and d2[0] == "stmt" and d2[3][0] == "ref" and all(x == "*" for x in d2[3][2][1]):
+                    d2 = b2.single_def(d2[3][2][0])
+                else:
+                    break
+            if d2 and d2[0] == "call" and (d2[2].callee or d2[2].u or "").endswith("Deref>::deref") and d2[2].args and op_place(d2[2].args[0]) is not None and is_buf2(op_place(d2[2].args[0])):
+                continue
+            if p2 is not None:
+                rt2 = b2.root(p2)
+                if 1 <= rt2[0] <= b2.f["argc"] and all(x == "*" for x in rt2[1]) and b2.f.get("dk") != "Closure" and param_is_whole_buffer(b2, rt2[0], depth - 1):
+                    continue
+            return False
+        return True
     for b in sorted(bodies, key=lambda x: x.id):
         fn = norm(b.id).replace("ironplcc::source::", "")
         vecs = {l for l, (ty, name) in enumerate(b.f["locals"]) if re.sub(r"\s", "", ty) in ("alloc::vec::Vec<u8>", "alloc::vec::Vec<u8,alloc::alloc::Global>")}
@@ -282,6 +338,11 @@ def rule_rawbytes(ctx, rep, rid="R-C14-rawbytes"):
             elif p is not None and is_buf(p):
                 r.ok("%s|decode operand" % fn, loc_str(b.f, c.loc), "the whole buffer")
                 continue
+            if p is not None and b.f.get("dk") != "Closure":
+                rt_ = b.root(p)
+                if 1 <= rt_[0] <= b.f["argc"] and all(x == "*" for x in rt_[1]) and param_is_whole_buffer(b, rt_[0]):
+                    r.ok("%s|decode operand" % fn, loc_str(b.f, c.loc), "the helper's byte-slice parameter, which is the whole buffer (Deref of the Vec) at every call of the helper")
+                    continue
             r.finding("%s|decode operand|not the whole buffer" % fn, loc_str(b.f, c.loc), "decode() is given %s, not the buffer that was read: the decoders see a part or a copy of the file" % (
                 "the result of %s" % via.split("::")[-1] if via else "something else"))
 
